@@ -10,6 +10,7 @@ from harness.engine import tlc as T
 SPEC = os.path.join(T.SPECS, "Sections")
 TAGS = ["info", "comment", "error", "b", "c1"]
 ACTIONS = ["HCreate", "HWrite1", "HWrite2", "HOverwrite", "HClear", "HClearN"]
+GATE_ACTIONS = ["HCreate", "HWrite1", "HOverwrite", "HClear", "HClearN", "HWriteF", "HQuiet", "HVerb"]
 ALPHA = "abcdefghijklmnopqrstuvwxyzABCDEFGHIJKLMNOPQRSTUVWXYZ0123456789"
 
 
@@ -32,7 +33,7 @@ class _AnsiStream(object):
 
 
 def build(ansi, how, via):
-    """-> (stream, factory) where factory() creates the next section on the shared output.
+    """-> (stream, factory, parent output or None) where factory() creates the next section on the shared output.
     how: forced | stream (ANSI), plainfmt | ansifmt (plain).  via: output | direct | io"""
     from clikit.api.io import Input, IO, Output
     from clikit.api.io.section_output import SectionOutput
@@ -48,12 +49,12 @@ def build(ansi, how, via):
         fmt = AnsiFormatter() if how == "ansifmt" else PlainFormatter()
     if via == "direct":
         shared = []
-        return stream, (lambda: SectionOutput(stream, shared, fmt))
+        return stream, (lambda: SectionOutput(stream, shared, fmt)), None
     out = Output(stream, fmt)
     if via == "io":
         io = IO(Input(StringInputStream("")), out, Output(BufferedOutputStream(), fmt))
-        return stream, (lambda: io.section().output)
-    return stream, out.section
+        return stream, (lambda: io.section().output), out
+    return stream, out.section, out
 
 
 def run_case(case):
@@ -76,10 +77,13 @@ def _event(op, s=0, lines=(), n=0, w=0, ansi=False):
 
 def _run_case(case):
     ansi = case["ansi"]
-    stream, factory = build(ansi, case.get("how", "forced" if ansi else "plainfmt"), case.get("via", "output"))
+    stream, factory, parent = build(ansi, case.get("how", "forced" if ansi else "plainfmt"), case.get("via", "output"))
     ev = _event("init", lines=case["pre"], w=case["w"], ansi=ansi)
-    for p in case["pre"]:  # what is on the terminal before the sections: put there by the harness itself
-        stream.write(p + "\n")
+    for p in case["pre"]:  # what is on the terminal before the first section is created
+        if parent is not None and case.get("pre_by") == "output":
+            parent.write_line(p)  # printed through the output the sections belong to
+        else:
+            stream.write(p + "\n")  # put there by the harness itself
     ev["ops"] = termbytes.ops(stream.fetch())
     trace = [ev]
     secs = []
@@ -94,8 +98,12 @@ def _run_case(case):
             else:
                 sec = secs[op["s"] - 1]
                 msg = "\n".join(op.get("markup") or op.get("lines", ()))
-                if k == "write":
-                    sec.write_line(msg)
+                if k == "write":  # n: message-level flag (0 = none)
+                    sec.write_line(msg, op.get("n", 0) or None)
+                elif k == "quiet":
+                    sec.set_quiet(bool(op["n"]))
+                elif k == "verb":
+                    sec.set_verbosity(op["n"])
                 elif k == "overwrite":
                     sec.overwrite(msg)
                 elif k == "clear":
@@ -180,27 +188,45 @@ def _markup(rng, s):
     return "%s<%s>%s</%s>%s" % (s[:a], t, s[a:b], t, s[b:])
 
 
+def may_write(gate, flag):
+    """mirror of the documented gate, used only to keep generated clear(n) inside its domain"""
+    return not gate["quiet"] and (flag == 0 or gate["verb"] >= flag)
+
+
 def random_case(rng, maxlen=40):
     w = rng.choice([4, 4, 7, 7, 20])
     ansi = rng.random() < 0.8
     case = {"w": w, "ansi": ansi, "how": rng.choice(["forced", "forced", "stream"] if ansi else ["plainfmt", "ansifmt"]),
-            "via": rng.choice(["output", "output", "direct", "io"]),
+            "via": rng.choice(["output", "output", "direct", "io"]), "pre_by": rng.choice(["stream", "output"]),
             "pre": [rng.choice(["##", "#" * w, "#" * (w + 1)]) for _ in range(rng.choice([0, 1, 1, 2]))], "ops": []}
+    gated = rng.random() < 0.5  # half of the cases use message-level flags / per-section quiet and verbosity
     nsec_max = rng.randint(1, 4)
     counts = []  # lines held by every section (what the calls ask for)
+    gates = []
     nl = 0
     for _ in range(rng.randint(3, maxlen)):
         x = rng.random()
         if not counts or (x < 0.12 and len(counts) < nsec_max):
             case["ops"].append({"op": "create", "s": len(counts) + 1})
             counts.append(0)
+            gates.append({"quiet": False, "verb": 0})
             continue
         s = rng.randint(1, len(counts))
-        if x < 0.55:
+        g = gates[s - 1]
+        if gated and x > 0.9:
+            if rng.random() < 0.5:
+                g["quiet"] = not g["quiet"]
+                case["ops"].append({"op": "quiet", "s": s, "n": int(g["quiet"])})
+            else:
+                g["verb"] = rng.choice([0, 1, 2, 4])
+                case["ops"].append({"op": "verb", "s": s, "n": g["verb"]})
+            continue
+        if x < 0.55 or g["quiet"]:  # clear / overwrite of a quiet section: outside the domain (notes, finding 3)
             lines = [_line(rng, w, nl + j) for j in range(rng.choice([1, 1, 1, 2, 2, 3]))]
             nl += len(lines)
-            op = {"op": "write", "s": s, "lines": lines}
-            if ansi:
+            flag = rng.choice([0, 0, 1, 1, 2, 4]) if gated else 0
+            op = {"op": "write", "s": s, "lines": lines, "n": flag}
+            if ansi and may_write(g, flag):
                 counts[s - 1] += len(lines)
         elif x < 0.7:
             lines = [_line(rng, w, nl + j) for j in range(rng.choice([1, 1, 2]))]
@@ -230,7 +256,7 @@ def run(ctx):
         "SectionOutput on the cell-level Terminal model; all sequences of create / write_line(1-2 lines) / overwrite / "
         "clear() / clear(n) up to the depth bound over 1-3 sections, line lengths below, at and above the width); the "
         "operation sequence TLC found for every reachable (state, last operation) at the depth bound and random longer "
-        "ones (-simulate) are replayed on real SectionOutputs and the emitted terminal ops compared per call; seeded "
+        "ones (-simulate), plus a model with flagged writes and per-section set_quiet / set_verbosity, are replayed on real SectionOutputs and the emitted terminal ops compared per call; seeded "
         "random sequences (<= 40 calls, widths 4/7/20, <= 4 sections, styled text, three ways of obtaining sections, "
         "ANSI and plain outputs) are validated by SectionsTrace.  Non-trivial: a call must re-print a newer section's "
         "content or handles a line wider than the terminal"
@@ -241,6 +267,8 @@ def run(ctx):
         "every character is one cell wide (no tabs, no East-Asian wide characters); the terminal width does not change",
         "only the section outputs write to the stream once the first section exists",
         "clear(n) is checked for 1 <= n <= number of lines held (clear(0) and n beyond the content are outside the statement)",
+        "a write the section's own quiet flag / verbosity suppresses changes neither screen nor content; clear and "
+        "overwrite are not issued on a section while it is quiet",
     ]
     cfgs = {
         "quick": [("MC_Sections_quick.cfg", "state-space W=4 depth 6"), ("MC_Sections_plain.cfg", "plain mode")],
@@ -280,10 +308,12 @@ def run(ctx):
                 mid[:] = [case]
         r.lines = []
 
-    emit_cfgs = ["MC_Sections_emit_quick.cfg"] if quick else ["MC_Sections_emit_thorough.cfg", "MC_Sections_emit_thorough2.cfg"]
+    emit_cfgs = (["MC_Sections_emit_quick.cfg", "MC_Sections_gates.cfg"] if quick else
+                 ["MC_Sections_emit_thorough.cfg", "MC_Sections_emit_thorough2.cfg", "MC_Sections_gates_thorough.cfg"])
     for cfg in emit_cfgs:
         r = ctx.model(SPEC, "MC_Sections", cfg, name="behaviours (state cover) " + cfg, workers=8, coverage=True)
-        idle = [a for a in ACTIONS if r.coverage.get(a, (0, 0))[1] == 0]
+        want = GATE_ACTIONS if "gates" in cfg else ACTIONS
+        idle = [a for a in want if r.coverage.get(a, (0, 0))[1] == 0]
         if idle:
             raise T.MachineryError("actions never taken in the model run: %s" % idle)
         replay_emitted(r)
